@@ -34,6 +34,16 @@ type ProcSpec struct {
 	Err       [][2]int `json:"err"`
 	Workers   int      `json:"workers"`
 	Transform bool     `json:"transform"` // returns a NEW record (payload rewritten) for every record it passes on
+	// v2 only, RETRY family: the processor answers at most Cap records per call (0 = no limit;
+	// an output-capped / rate-limited processor: the reply is shorter than the input and
+	// ProcessorTask marks the rest Retry), and it leaves a nil result ("not handled, hand it
+	// to me again") for the records of Hole the first time it is given them, also in the
+	// MIDDLE of a reply - the retried group is then followed by finished records.
+	Cap  int      `json:"cap,omitempty"`
+	Hole [][2]int `json:"hole,omitempty"`
+	// v1 only, HEAD-OF-LINE family: the processing of these records (one gate per record of a
+	// ParallelNode worker) is released only when nothing else can move
+	SlowRecs [][2]int `json:"slowRecs,omitempty"`
 }
 
 // SrcSpec scripts one source: the sizes of the batches its Read calls return,
@@ -90,6 +100,23 @@ type Case struct {
 	Malformed  bool       `json:"malformed"`
 }
 
+// eachProc visits every processor script of the case.
+func (c *Case) eachProc(f func(p *ProcSpec)) {
+	for i := range c.PipeProcs {
+		f(&c.PipeProcs[i])
+	}
+	for s := range c.Sources {
+		for i := range c.Sources[s].Procs {
+			f(&c.Sources[s].Procs[i])
+		}
+	}
+	for d := range c.Dests {
+		for i := range c.Dests[d].Procs {
+			f(&c.Dests[d].Procs[i])
+		}
+	}
+}
+
 // CaseFromJSON decodes the "input" object of a case line. It panics on an
 // ill-formed case (the caller wraps it in hx.Try).
 func CaseFromJSON(m map[string]any) Case {
@@ -126,6 +153,14 @@ func CaseFromJSON(m map[string]any) Case {
 			c.Dests[i].EmptyAcks = 0 // the v1 reaction to an empty reply is a crash and belongs to C09
 		}
 	}
+	c.eachProc(func(p *ProcSpec) {
+		if c.Engine == "v1" || c.Level == "service" {
+			p.Cap, p.Hole = 0, nil // short / holed replies are the v2 retry protocol (v1: C09)
+		}
+		if p.Cap < 0 {
+			p.Cap = 0
+		}
+	})
 	return c
 }
 
@@ -274,6 +309,7 @@ func inSet(set [][2]int, s, k int) bool {
 type gate struct {
 	label string
 	slow  bool
+	last  bool // HEAD-OF-LINE family: eligible only when nothing but gates of this kind is parked
 	held  bool // not eligible before Unhold
 	ch    chan struct{}
 }
@@ -299,6 +335,12 @@ func NewSched(choices []int) *Sched {
 // is closed. It returns ctx.Err() / context.Canceled in the latter cases.
 func (s *Sched) Park(ctx context.Context, label string, slow bool, abort <-chan struct{}) error {
 	return s.park(ctx, label, slow, false, abort)
+}
+
+// ParkLast is Park for a gate that is released only when every other parked call (slow ones
+// included) has been released: the call at the head of a line everything else queues behind.
+func (s *Sched) ParkLast(ctx context.Context, label string, abort <-chan struct{}) error {
+	return s.parkG(ctx, &gate{label: label, slow: true, last: true, ch: make(chan struct{})}, abort)
 }
 
 // ParkHeld is Park for a gate that stays closed until Unhold was called.
@@ -331,12 +373,15 @@ func (s *Sched) NEligible() int {
 }
 
 func (s *Sched) park(ctx context.Context, label string, slow, held bool, abort <-chan struct{}) error {
+	return s.parkG(ctx, &gate{label: label, slow: slow, held: held, ch: make(chan struct{})}, abort)
+}
+
+func (s *Sched) parkG(ctx context.Context, g *gate, abort <-chan struct{}) error {
 	s.mu.Lock()
 	if s.free {
 		s.mu.Unlock()
 		return ctx.Err()
 	}
-	g := &gate{label: label, slow: slow, held: held, ch: make(chan struct{})}
 	s.parked = append(s.parked, g)
 	s.mu.Unlock()
 	select {
@@ -419,6 +464,13 @@ func (s *Sched) ReleaseOne(settle time.Duration) bool {
 			}
 		}
 	}
+	if len(cand) == 0 && c%8 != 7 {
+		for i, g := range s.parked {
+			if !g.last && (!g.held || s.unheld) {
+				cand = append(cand, i)
+			}
+		}
+	}
 	if len(cand) == 0 {
 		for i, g := range s.parked {
 			if !g.held || s.unheld {
@@ -468,6 +520,7 @@ type Obs struct {
 	Results  []string // per worker / node group: "ok" | "err"
 	Released []string
 	Note     string
+	Retries  int // v2: processor calls answered with a short / holed reply (each opens a Retry group)
 }
 
 func (o Obs) JSON() map[string]any {
@@ -475,7 +528,7 @@ func (o Obs) JSON() map[string]any {
 	for i, e := range o.Log {
 		evs[i] = e.JSON()
 	}
-	return map[string]any{"log": evs, "hang": o.Hang, "stuck": o.Stuck, "crashed": o.Crashed, "results": o.Results, "released": o.Released, "note": o.Note}
+	return map[string]any{"log": evs, "hang": o.Hang, "stuck": o.Stuck, "crashed": o.Crashed, "results": o.Results, "released": o.Released, "note": o.Note, "retries": o.Retries}
 }
 
 // run is the state the fakes of one run share.
@@ -489,6 +542,7 @@ type run struct {
 	dlqCount  int
 
 	pendingAcks sync.WaitGroup // deferred source acks not yet delivered
+	retries     atomic.Int64   // short / holed processor replies
 }
 
 // flushAcks waits (bounded) for the deferred source acks to be delivered; called after
